@@ -98,6 +98,11 @@ pub fn run_case(ctx: &Ctx, rep: &mut Report, profile: Profile, case_seed: u64, v
 		crate::bulk::run_bulk(ctx, rep, profile.name(), case_seed, variant);
 		return
 	}
+	if matches!(profile, Profile::C10 | Profile::C14) && variant % 16 == 11 {
+		// growth of the ref-count table of shared tree nodes (needs > 10^6 node addresses)
+		crate::rcgrow::run(ctx, rep, profile.name(), case_seed, variant);
+		return
+	}
 	let mut rng = Rng::new(case_seed);
 	let cfg = profile.config(&mut rng, variant);
 	let desc = format!("{} case_seed={} variant={} cfg=[{}]", profile.name(), case_seed, variant, cfg.describe());
